@@ -250,7 +250,6 @@ func (t *Thread) Yield(args []Value) ([]Value, error) {
 // This turns off the thread, cleaning up its close stack.  The thread must be
 // running.
 func (t *Thread) end(args []Value, err error, exception interface{}) {
-	caller := t.caller
 	// Pending to-be-closed values are closed first, while the thread is still
 	// running and no lock is held: __close handlers are arbitrary Lua code and
 	// may resume or close coroutines (which takes the locks below).  If the
@@ -261,6 +260,9 @@ func (t *Thread) end(args []Value, err error, exception interface{}) {
 	} else if termination := t.cleanupCloseStackAtEnd(&err); termination != nil {
 		exception = termination
 	}
+	// (Only now: a __close handler may have yielded, and the thread may have
+	// been resumed by another thread since.)
+	caller := t.caller
 	t.mux.Lock()
 	caller.mux.Lock()
 	defer t.mux.Unlock()
